@@ -99,6 +99,8 @@ def instr_xml(i, var):
         return "<xsl:text>t</xsl:text>"
     if k == "C":
         return '<xsl:copy-of select="(//*)[%d]"/>' % i["n"]
+    if k == "K":
+        return '<xsl:call-template name="t%d"/>' % i["m"]
     if k == "CA":
         sel = "(//*)[%d]/@*[name()='%s']" % (i["n"], i["q"])
         if i.get("copy"):
@@ -142,15 +144,37 @@ def instr_xml(i, var):
     raise ValueError(k)
 
 
+def module_head(decls, excl, imports):
+    s = '<xsl:stylesheet version="1.0"'
+    for p, u in decls:
+        s += ' xmlns%s="%s"' % (":" + p if p else "", esc(u))
+    if excl:
+        s += ' exclude-result-prefixes="%s"' % " ".join(p if p else "#default" for p in excl)
+    s += ">"
+    for k in imports:
+        s += '<xsl:import href="m%d.xsl"/>' % k
+    return s
+
+
+def module_children(c, m):
+    return [k + 1 for k, md in enumerate(c.get("mods", [])) if md["parent"] == m]
+
+
+def module_xsl(c, k):
+    """text of imported module k (1-based): its imports, aliases and the named template t<k>"""
+    md = c["mods"][k - 1]
+    s = module_head(md["rootdecls"], md["rootexcl"], module_children(c, k))
+    for sp, rp in md["aliases"]:
+        s += '<xsl:namespace-alias stylesheet-prefix="%s" result-prefix="%s"/>' % (sp or "#default", rp or "#default")
+    s += '<xsl:template name="t%d">' % k + "".join(instr_xml(b, []) for b in md["body"]) + "</xsl:template>"
+    return s + "</xsl:stylesheet>"
+
+
 def case_xsl(c):
     var = []
     body = "".join(instr_xml(b, var) for b in c["body"])
-    s = '<xsl:stylesheet version="1.0"'
-    for p, u in c["rootdecls"]:
-        s += ' xmlns%s="%s"' % (":" + p if p else "", esc(u))
-    if c["rootexcl"]:
-        s += ' exclude-result-prefixes="%s"' % " ".join(p if p else "#default" for p in c["rootexcl"])
-    s += '><xsl:output method="xml" indent="no"/>'
+    s = module_head(c["rootdecls"], c["rootexcl"], module_children(c, 0))
+    s += '<xsl:output method="xml" indent="no"/>'
     for sp, rp in c.get("aliases", []):
         s += '<xsl:namespace-alias stylesheet-prefix="%s" result-prefix="%s"/>' % (sp or "#default", rp or "#default")
     for n, aset in enumerate(c.get("sets", [])):
@@ -175,6 +199,8 @@ def instr_tokens(i):
         return ["C", str(i["n"])]
     if k == "CA":
         return ["CA", str(i["n"]), i["q"]]
+    if k == "K":
+        return ["K", str(i["m"])]
     if k == "Y":
         u = use_tokens(i)
         t = ["Y", str(i["n"]), str(len(i["body"]) + (1 if u else 0))] + u
@@ -223,6 +249,21 @@ def case_tokens(c):
         t.append(str(len(aset)))
         for a in aset:
             t += [a["name"], "1" if a["ns"] is not None else "0", tok(a["ns"] or ""), tok(a["value"])]
+    mods = c.get("mods", [])
+    t.append(str(len(mods)))
+    for md in mods:
+        t.append(str(md["parent"]))
+        t.append(str(len(md["rootdecls"])))
+        for p, u in md["rootdecls"]:
+            t += [ptok(p), tok(u)]
+        t.append(str(len(md["rootexcl"])))
+        t += [ptok(p) for p in md["rootexcl"]]
+        t.append(str(len(md["aliases"])))
+        for sp, rp in md["aliases"]:
+            t += [ptok(sp), ptok(rp)]
+        t.append(str(len(md["body"])))
+        for b in md["body"]:
+            t += instr_tokens(b)
     t += src_tokens(c["src"], {})
     t.append(str(len(c["body"])))
     for b in c["body"]:
@@ -251,6 +292,7 @@ def valid(c):
         if scope[sp] in seen_alias or scope[sp] == scope[rp]:
             return False          # one alias per stylesheet URI, no identity alias
         seen_alias.add(scope[sp])
+    mods = c.get("mods", [])
     nsets = len(c.get("sets", []))
     for aset in c.get("sets", []):
         for a in aset:
@@ -267,6 +309,8 @@ def valid(c):
             if p and p not in sc:
                 return False
 
+    allow_calls = [True]
+
     def ok_list(body, sc, in_elem):
         return all(ok(i, sc, in_elem) for i in body)
 
@@ -276,6 +320,11 @@ def valid(c):
             return False
         if k == "T":
             return True
+        if k == "K":
+            return in_elem and allow_calls[0] and 1 <= i["m"] <= len(mods)
+        if i.get("cn") or i.get("cs") or i.get("use"):
+            if not allow_calls[0]:
+                return False          # module templates: no variables of the main template, no attribute sets
         if k == "CA":
             if not in_elem or not (1 <= i["n"] <= nsrc):
                 return False
@@ -330,6 +379,32 @@ def valid(c):
         return False
     if len(c["body"]) != 1 or c["body"][0]["k"] not in ("L", "E"):
         return False          # exactly one document element
+    depth = {0: 0}
+    for k, md in enumerate(mods):
+        if not (0 <= md["parent"] <= k):
+            return False
+        depth[k + 1] = depth[md["parent"]] + 1
+        if depth[k + 1] > 3:
+            return False
+        msc = {}
+        for p, u in md["rootdecls"]:
+            if p in msc or u == "":
+                return False
+            msc[p] = u
+        if msc.get("xsl") != XSLT or any(p not in msc for p in md["rootexcl"]):
+            return False
+        seen_alias = set()
+        for sp, rp in md["aliases"]:
+            if sp not in msc or rp not in msc or msc[sp] == XSLT or msc[rp] == XSLT:
+                return False
+            if msc[sp] in seen_alias or msc[sp] == msc[rp]:
+                return False
+            seen_alias.add(msc[sp])
+        allow_calls[0] = False
+        okm = ok_list(md["body"], msc, True)
+        allow_calls[0] = True
+        if not okm:
+            return False
     return ok_list(c["body"], scope, False)
 
 
@@ -347,9 +422,40 @@ def expected(c):
     for p, u in c["rootdecls"]:
         scope0[p] = u
     excl0 = set(scope0[p] for p in c["rootexcl"])
-    amap = dict((scope0[sp], scope0[rp]) for sp, rp in c.get("aliases", []))
+    mods = c.get("mods", [])
+    own = [dict((scope0[sp], scope0[rp]) for sp, rp in c.get("aliases", []))]
+    for md in mods:
+        msc = dict(md["rootdecls"])
+        own.append(dict((msc[sp], msc[rp]) for sp, rp in md["aliases"]))
+    kids = lambda m: [k + 1 for k, md in enumerate(mods) if md["parent"] == m]
+
+    def order(m):
+        out = [m]
+        for k in reversed(kids(m)):
+            out += order(k)
+        return out
+    # XSLT 1.0 7.1.1: several aliases for one namespace URI -> the one with the highest import precedence, for the
+    # whole stylesheet (importing module before imported, later import before earlier import)
+    amap = {}
+    for m in order(0):
+        for u, v in own[m].items():
+            amap.setdefault(u, v)
     if amap:
         feats.add("alias")
+    if mods:
+        feats.add("imports")
+        # what the code as first repaired (push-down only) computes per module: used only to LABEL the known deviation
+        tbl = [dict(d) for d in own]
+
+        def post(m):
+            for k in kids(m):       # the code post-constructs the imports from the first xsl:import to the last
+                tbl[k].update(tbl[m])
+                post(k)
+                for u, v in tbl[k].items():
+                    tbl[m].setdefault(u, v)
+        post(0)
+        if any(tbl[m] != amap for m in range(len(tbl))):
+            feats.add("aliasNotCollected")
 
     def al(u):
         return amap.get(u, u)
@@ -393,6 +499,11 @@ def expected(c):
     def run(body, sc, excl, parent):
         for i in body:
             k = i["k"]
+            if k == "K":
+                md = mods[i["m"] - 1]
+                msc = dict(md["rootdecls"])
+                run(md["body"], msc, set(msc[p] for p in md["rootexcl"]), parent)
+                continue
             if k == "T":
                 if parent is not None:
                     if parent["kids"] and parent["kids"][-1] == "T":
@@ -470,7 +581,7 @@ def expected(c):
                 # XSLT 7.1.1: the namespace URI of a literal result element / of its attributes that is the
                 # stylesheet side of an xsl:namespace-alias is replaced by the result side
                 e = {"name": (al(s2.get(p, "")), l), "atts": {}, "kids": [], "id": iid, "kind": "L", "attsrc": {},
-                     "excluded": ex2, "aliased": set(amap)}
+                     "excluded": ex2, "hasAlias": bool(amap), "aliased": set(amap) - set(amap.values())}   # a URI that is also a result side may appear
                 apply_sets(i, e)
                 litp = set(split(q)[0] for q, _ in i["atts"]) - {""}
                 for u in i.get("use", []):
@@ -565,6 +676,17 @@ def gen_src(r, P=None):
     return root
 
 
+def strip_template_local(body):
+    """module templates cannot see the variables of the main template nor (in this generator) attribute sets"""
+    for i in body:
+        i.pop("cn", None)
+        i.pop("cs", None)
+        if "use" in i:
+            i["use"] = []
+        strip_template_local(i.get("body", []))
+    return body
+
+
 def gen_case(r, size=None):
     P = pool(r)
     rootdecls = [("xsl", XSLT)]
@@ -590,6 +712,7 @@ def gen_case(r, size=None):
         src_attrs = src_attrs + pref + pref      # favour namespaced attributes
     budget = [size if size is not None else r.range(2, 9)]
     nsets = [0]
+    nmods = [0]
 
     def pick_use():
         if nsets[0] and r.chance(1, 3):
@@ -619,10 +742,14 @@ def gen_case(r, size=None):
                     kinds.append(("CA", 3))
             if depth >= 3:
                 kinds = [(k, w) for k, w in kinds if k in ("A", "T", "C", "CA")] or [("T", 1)]
+            if in_elem and nmods[0] and depth >= 1:
+                kinds.append(("K", 4))
             if depth == 0:
                 kinds = [("L", 3), ("E", 2)]     # exactly one document element
             k = r.weighted(kinds)
-            if k == "CA":
+            if k == "K":
+                out.append({"k": "K", "m": r.range(1, nmods[0])}); had_child = True
+            elif k == "CA":
                 n, q = r.choice(src_attrs)
                 i = {"k": "CA", "n": n, "q": q}
                 if r.chance(1, 3):
@@ -725,8 +852,48 @@ def gen_case(r, size=None):
                         ap = r.choice(P + [""])
                 aset.append({"k": "A", "name": (ap + ":" if ap else "") + r.choice(ALOC), "ns": ns, "value": "u" + str(r.below(9))})
             sets.append(aset)
+    # import tree (depth <= 3) with competing xsl:namespace-alias declarations at every level
+    mods = []
+    if r.chance(1, 3):
+        depth_of = {0: 0}
+        for k in range(1, r.range(1, 4) + 1):
+            par = r.choice([m for m in depth_of if depth_of[m] < 3])
+            # keep pre-order numbering: a module's imports must follow it and precede later siblings of its ancestors;
+            # choosing the parent among the last module's ancestor chain guarantees that
+            chain = [k - 1] if k > 1 else [0]
+            while chain[-1] != 0:
+                chain.append(mods[chain[-1] - 1]["parent"])
+            par = r.choice([m for m in chain if depth_of[m] < 3])
+            depth_of[k] = depth_of[par] + 1
+            mdecls = [("xsl", XSLT)]
+            for p in r.shuffle(P + [""]):
+                if r.chance(1, 2):
+                    mdecls.append((p, r.choice(URI)))
+            msc = dict(mdecls)
+            mexcl = [p for p in msc if p != "xsl" and r.chance(1, 6)]
+            mal = []
+            cand = [p for p in msc if p != "xsl"]
+            if len(cand) >= 2 and r.chance(3, 4):
+                sp = r.choice(cand)
+                rp = r.choice([p for p in cand if p != sp])
+                if msc[sp] != msc[rp]:
+                    mal.append((sp, rp))
+            mods.append({"parent": par, "rootdecls": mdecls, "rootexcl": mexcl, "aliases": mal, "body": [], "_sc": msc})
+        if not aliases and len(cand0 := [p for p in sc0 if p != "xsl"]) >= 2 and r.chance(1, 2):
+            sp = r.choice(cand0)
+            rp = r.choice([p for p in cand0 if p != sp])
+            if sc0[sp] != sc0[rp]:
+                aliases.append((sp, rp))
+        save = (nsets[0], budget[0])
+        nsets[0] = 0
+        for md in mods:
+            budget[0] = r.range(1, 4)
+            md["body"] = strip_template_local(body(2, md.pop("_sc"), True))
+        nsets[0], budget[0] = save
+    nmods[0] = len(mods)
     nsets[0] = len(sets)
-    c = {"rootdecls": rootdecls, "rootexcl": rootexcl, "aliases": aliases, "sets": sets, "src": src, "body": body(0, sc0, False)}
+    c = {"rootdecls": rootdecls, "rootexcl": rootexcl, "aliases": aliases, "sets": sets, "mods": mods, "src": src,
+         "body": body(0, sc0, False)}
     return c
 
 
@@ -737,6 +904,9 @@ def instr_list(c):
     def go(body):
         for i in body:
             if i["k"] == "T":
+                continue
+            if i["k"] == "K":
+                go(c["mods"][i["m"] - 1]["body"])
                 continue
             out.append(i)
             for u in i.get("use", []):
@@ -817,6 +987,27 @@ def shrink_candidates(c):
     for j in range(len(c.get("aliases", []))):
         c2 = copy.deepcopy(c)
         del c2["aliases"][j]
+        out.append(c2)
+    for k, md in enumerate(c.get("mods", [])):
+        for fld in ("aliases", "rootexcl"):
+            for j in range(len(md[fld])):
+                c2 = copy.deepcopy(c)
+                del c2["mods"][k][fld][j]
+                out.append(c2)
+        for j in range(len(md["body"])):
+            c2 = copy.deepcopy(c)
+            del c2["mods"][k]["body"][j]
+            out.append(c2)
+    if c.get("mods") and not any(md["parent"] == len(c["mods"]) for md in c["mods"]):
+        last = len(c["mods"])
+        c2 = copy.deepcopy(c)
+
+        def drop_calls(body):
+            body[:] = [b for b in body if not (b["k"] == "K" and b["m"] == last)]
+            for b in body:
+                drop_calls(b.get("body", []))
+        drop_calls(c2["body"])
+        c2["mods"].pop()
         out.append(c2)
     if c["src"]["kids"] or c["src"]["decls"] or c["src"]["atts"]:
         c2 = copy.deepcopy(c)
